@@ -1,10 +1,10 @@
 /*@unit {
  'kind': 'bounded', 'mode': 'plain', 'tier': 'thorough',
- 'bound': 'pending list of at most NT timers (2 in the quick tier, 3 in the thorough tier) in an arbitrary sorted, well-linked state; one exec(now) in which thorough tier: 2 timers, at most one firing each (~13 min); loops unwound with unwinding assertions',
+ 'bound': 'pending list of at most NT timers (2 in the quick tier, 3 in the thorough tier) in an arbitrary sorted, well-linked state; one exec(now) in which thorough tier: ONE timer firing up to 4 times in one exec (catch-up: one firing per elapsed period, re-armed at previous deadline + interval, no drift after a long stall; ~10 min); loops unwound with unwinding assertions',
  'functions': ['timer_manager_basic::plan(tim)', 'timer_manager_basic::plan(tim,start,interval)', 'timer_manager_basic::exec', 'timer_manager_basic::empty',
                'timer_manager_basic::minimal_interval', 'timer_head_basic::is_planned', 'timer_head_basic::unplan'],
  'extract': ['units/C01/cxx_dlist_extract.py', 'units/C16/manager_extract.py'],
- 'unwind': 5, 'params': {'NT': [2], 'MAXFIRE': [1]},
+ 'unwind': 7, 'params': {'NT': [1], 'MAXFIRE': [4]},
  'clauses': 'scheduler clauses of C16 on the real (extracted) timer_manager, bounded: after every plan() the pending list is sorted by deadline and holds exactly the planned timers; '
             'during exec(now) a callback never runs before its deadline, callbacks run in non-decreasing deadline order, each firing of a timer is at exactly its previous deadline + interval '
             '(no drift, one firing per elapsed period), a timer that unplans itself in its callback does not fire again, an unplanned timer never fires; after exec no planned timer is due; '
